@@ -194,16 +194,33 @@ def expr(shape, fs):
         return (a > b) | (b < c) | (c == a)
     if shape == 5:
         return a.between(b, c)
+    if shape == 6:  # window function: argument, PARTITION BY, ORDER BY
+        from pypika_tortoise import analytics as an
+        return an.Sum(a).over(b).orderby(c)
+    if shape == 7:  # aggregate with FILTER(WHERE ...)
+        return fn.Count(a).filter(b == c)
+    if shape == 8:  # AT TIME ZONE operand
+        from pypika_tortoise.terms import AtTimezone
+        return AtTimezone(a, "UTC") == b + c
+    if shape == 9:  # CASE: condition, result, default
+        from pypika_tortoise import Case
+        return Case().when(a == 1, b).else_(c)
+    if shape == 10:  # NOT, unary minus, CAST, IS NULL
+        from pypika_tortoise import Not
+        return Not(-a == fn.Cast(b, "INT")) & c.isnull()
+    if shape == 11:  # JSON operators, LIKE, bitwise and, interval arithmetic
+        return a.get_json_value("k").like(b) & (c.bitwiseand(1) == 1)
     raise AssertionError(shape)
 
 
 @harness(
     prop="C17",
-    cubes={"shape": range(6), "tset": [0, 1]},
+    cubes={"shape": range(12), "tset": [0, 1]},
     bounds={"quick": {}, "thorough": {}},
     timeout={"quick": 300, "thorough": 600},
     witness=[dict(shape=0, tset=0, i1=0, i2=1, i3=2, c1=0, c2=0, c3=0), dict(shape=1, tset=1, i1=0, i2=1, i3=2, c1=0, c2=0, c3=0)],
-    doc="expressions over three fields, each of table {ta, s.tb, ta AS z} or {p1.s.ta, p2.s.ta, s.ta} (selector) and column {x, y} (selector), in "
+    doc="12 expression shapes (comparison / arithmetic / function / IN / OR chain / BETWEEN / window function / FILTER / AT TIME ZONE / "
+        "CASE / NOT, minus, CAST, IS NULL / JSON, LIKE, bitwise) over three fields, each of table {ta, s.tb, ta AS z} or {p1.s.ta, p2.s.ta, s.ta} (selector) and column {x, y} (selector), in "
         "every operand order: fields_() holds every distinct (table, column) reference exactly once and tables_ every table",
 )
 def c17_collect(shape: int, tset: int, i1: int, i2: int, i3: int, c1: int, c2: int, c3: int) -> int:
